@@ -17,6 +17,10 @@ pub struct Lattice {
 
 /// (n, m, cap, t, value class, seeded, rng kind): every (n, m) with n·m ≤ limit, every t, class and rng kind at least once
 pub fn lattice(opts: &Opts, limit: usize, rng: &mut (impl RngCore + rand_core::CryptoRng)) -> Lattice {
+    lattice_reps(opts, limit, if opts.thorough { 6 } else { 1 }, rng)
+}
+
+pub fn lattice_reps(_opts: &Opts, limit: usize, reps: usize, rng: &mut (impl RngCore + rand_core::CryptoRng)) -> Lattice {
     let ns = [1usize, 2, 4, 8, 16, 32, 64];
     let ms = [1usize, 2, 4, 8, 16, 32];
     let mut pts = vec![];
@@ -26,7 +30,6 @@ pub fn lattice(opts: &Opts, limit: usize, rng: &mut (impl RngCore + rand_core::C
             if n * m > limit {
                 continue;
             }
-            let reps = if opts.thorough { 6 } else { 1 };
             for rep in 0..reps {
                 let t = 1 + (i + rep) % 6;
                 let cap = m << ((i + rep) % 3);
@@ -264,7 +267,7 @@ pub fn mutations(parts: &fmx::Parts, extra: &FP, rng: &mut (impl RngCore + rand_
 pub fn c02(opts: &Opts, out: &mut Out) {
     let mut rng = chacha(opts.seed, 2);
     let lim = if opts.thorough { 256 } else { 64 };
-    let lat = lattice(opts, lim, &mut rng);
+    let lat = lattice_reps(opts, lim, if opts.thorough { 2 } else { 1 }, &mut rng);
     let mut count = 0usize;
     let mut rejected = 0usize;
     let mut classes = std::collections::BTreeSet::new();
